@@ -1240,8 +1240,8 @@ def derived_observable(func, data, array_mode=False, **kwargs):
         data = np.array(data, order='C')
         raveled_data = data.ravel()
         for i in range(len(raveled_data)):
-            if isinstance(raveled_data[i], (int, float)):
-                raveled_data[i] = cov_Obs(raveled_data[i], 0.0, "###dummy_covobs###")
+            if isinstance(raveled_data[i], (int, float, np.integer, np.floating)):
+                raveled_data[i] = cov_Obs(float(raveled_data[i]), 0.0, "###dummy_covobs###")
 
     allcov = {}
     for o in raveled_data:
